@@ -387,14 +387,27 @@ class NameConverter(ast.NodeTransformer):
         ovld_mangled,
         map_mangled,
         code_mangled,
+        call_mangled,
     ):
         self.analysis = anal
+        self.call_mangled = call_mangled
         self.recurse_sym = recurse_sym
         self.call_next_sym = call_next_sym
         self.ovld_mangled = ovld_mangled
         self.map_mangled = map_mangled
         self.code_mangled = code_mangled
         self.count = count()
+        self.no_inline = False
+
+    def visit_comprehension(self, node):
+        node.target = self.visit(node.target)
+        # Assignment expressions are not allowed in the iterable of a
+        # comprehension, so the lookup cannot be inlined there
+        no_inline, self.no_inline = self.no_inline, True
+        node.iter = self.visit(node.iter)
+        self.no_inline = no_inline
+        node.ifs = [self.visit(cond) for cond in node.ifs]
+        return node
 
     def visit_Name(self, node):
         if node.id == self.recurse_sym:
@@ -414,10 +427,33 @@ class NameConverter(ast.NodeTransformer):
         ):
             return self.generic_visit(node)
 
-        if any(isinstance(arg, ast.Starred) for arg in node.args):
-            return self.generic_visit(node)
-
         cn = node.func.id == self.call_next_sym
+
+        if (
+            self.no_inline
+            or any(isinstance(arg, ast.Starred) for arg in node.args)
+            or any(kw.arg is None for kw in node.keywords)
+        ):
+            # The arguments are only known at run time (*args, **kwargs), or
+            # temporaries cannot be used: look the method up in a helper
+            new_node = ast.Call(
+                func=ast.Name(id=self.call_mangled, ctx=ast.Load()),
+                args=[
+                    ast.Name(id=self.code_mangled, ctx=ast.Load())
+                    if cn
+                    else ast.Constant(value=None),
+                    ast.Tuple(
+                        elts=[ast.Name(id="self", ctx=ast.Load())]
+                        if self.analysis.is_method
+                        else [],
+                        ctx=ast.Load(),
+                    ),
+                    *[self.visit(arg) for arg in node.args],
+                ],
+                keywords=[self.visit(kw) for kw in node.keywords],
+            )
+            return ast.copy_location(old_node=node, new_node=new_node)
+
         tmp = f"__TMP{next(self.count)}_"
 
         def _make_lookup_call(key, arg):
@@ -554,6 +590,7 @@ def recode(fn, ovld, recurse_sym, call_next_sym, newname):
     ovld_mangled = f"___OVLD{ovld.id}__"
     map_mangled = f"___MAP{ovld.id}__"
     code_mangled = f"___CODE{next(_current)}__"
+    call_mangled = f"___CALL{ovld.id}__"
     try:
         src = inspect.getsource(fn)
     except OSError:  # pragma: no cover
@@ -571,6 +608,7 @@ def recode(fn, ovld, recurse_sym, call_next_sym, newname):
         ovld_mangled=ovld_mangled,
         map_mangled=map_mangled,
         code_mangled=code_mangled,
+        call_mangled=call_mangled,
     ).visit(tree)
     new.body[0].decorator_list = []
     if fn.__closure__:
@@ -597,4 +635,34 @@ def recode(fn, ovld, recurse_sym, call_next_sym, newname):
     new_fn.__globals__[ovld_mangled] = ovld.dispatch
     new_fn.__globals__[map_mangled] = ovld.map
     new_fn.__globals__[code_mangled] = new_fn.__code__
+    new_fn.__globals__[call_mangled] = _dynamic_call(ovld)
     return new_fn
+
+
+def _dynamic_call(ovld):
+    """Look up and call a method for arguments only known at run time.
+
+    code is the code object of the method that uses call_next, or None for
+    recurse; slf is (self,) in methods and () in functions.
+    """
+
+    def call(code, slf, *args, **kwargs):
+        if code is None:
+            return ovld.dispatch(*slf, *args, **kwargs)
+        anal = ovld.argument_analysis
+        # Positional arguments given by name, as the entry point allows
+        names = [
+            *anal.strict_positional_required,
+            *anal.strict_positional_optional,
+            *anal.positional_required,
+            *anal.positional_optional,
+        ]
+        while len(args) < len(names) and names[len(args)] in kwargs:
+            args = (*args, kwargs.pop(names[len(args)]))
+        key = [code]
+        key += [anal.lookup_for(i)(arg) for i, arg in enumerate(args)]
+        key += [(k, anal.lookup_for(k)(v)) for k, v in kwargs.items()]
+        method = ovld.map[tuple(key)]
+        return method(*slf, *args, **kwargs)
+
+    return call
